@@ -27,10 +27,38 @@ REAL_VS_STUB = {
     },
 }
 
+UNDER_CONSTRUCTION = "simulation target (see DESIGN.md section 3); check not built yet in this snapshot"
+
+NOT_APPLICABLE = {
+    "C01": UNDER_CONSTRUCTION, "C05": UNDER_CONSTRUCTION, "C06": UNDER_CONSTRUCTION,
+    "C08": UNDER_CONSTRUCTION, "C09": UNDER_CONSTRUCTION, "C10": UNDER_CONSTRUCTION,
+    "C11": UNDER_CONSTRUCTION, "C12": UNDER_CONSTRUCTION, "C15": UNDER_CONSTRUCTION,
+    "C16": UNDER_CONSTRUCTION,
+    "C02": "pure function of (cases, combos, fn): enumeration and placeholder shape contain no schedule, "
+           "clock, I/O or fault; executor reordering is C01's subject. Not a simulation target.",
+    "C03": "labelling a finished result list into a Dataset/DataFrame is a pure transformation; shuffle is a "
+           "deterministic permutation of the input, not a schedule. Not a simulation target.",
+    "C07": "arithmetic over (N, batchsize, num_batches), best decided by exhaustive enumeration (another "
+           "technique); asserted as a sanity invariant inside crop runs but not claimed.",
+    "C13": "is_case_missing / find_missing_cases are pure functions of a Dataset; no nondeterminism beyond C05's.",
+    "C14": "single save->load round trip of one dataset: no concurrency, crash or history; input-quantified.",
+    "C17": "matplotlib artists are a pure function of dataset and options.",
+    "C18": "infiniplot artists are a pure function of dataset and options.",
+    "C19": "Welford updates and the stopping rule are pure sequential arithmetic; chunkings are inputs, not schedules.",
+    "C20": "pure string formatting.",
+}
+
 PROPS = {
     "C04": {
         "workload": "c04", "level": "exploration",
         "quick": 6000, "thorough": 120000,
+        "technique": "deterministic simulation: seeded sow/grow/reap histories over a real crop directory with "
+                     "interposed file I/O, simulated process boundaries and a simulated worker pool; reference-model oracle",
+        "level_text": "Seeded exploration of generated sweeps x batching x shuffle x grow histories (order, grouping, "
+                      "repetition, parallel completion order, fresh-process reloads); every reaped position is "
+                      "compared with an independent reference. Evidence, not proof: the space is sampled.",
+        "level_note": "Trusts: the harness reference (itertools.product + injective value function), actors == "
+                      "processes (no shared xyzpy objects unless the scenario keeps the object), loky replaced by SimExecutor.",
         "evidence": {
             "rule": "each run draws a sweep (grid / case list / both, 1-40 settings, result kind), "
                     "batching (size/count, at constructor or sow), shuffle (value and site), sow API "
